@@ -123,31 +123,32 @@ def pyIntDigits : List Char → Bool → Nat → Nat → Option Nat
 
 def pyInt (t : String) : Option Int :=
   match t.toList with
-  | '-' :: cs => (pyIntDigits cs false 0 0).map (fun n => -(n : Int))
-  | '+' :: cs => (pyIntDigits cs false 0 0).map (fun n => (n : Int))
-  | cs => (pyIntDigits cs false 0 0).map (fun n => (n : Int))
+  | '-' :: cs => Option.map (fun n : Nat => -(n : Int)) (pyIntDigits cs false 0 0)
+  | '+' :: cs => Option.map (fun n : Nat => (n : Int)) (pyIntDigits cs false 0 0)
+  | cs => Option.map (fun n : Nat => (n : Int)) (pyIntDigits cs false 0 0)
 
 /-- `binascii.unhexlify` of a `str` -/
 def unhexlify (cs : List Char) : Option Bytes := Hex.decodeChars cs
 
+/-- the `int(t)` branch of `compile_expression`: taken for a decimal literal of magnitude below 2^64 not starting with `0` -/
+def decimalLiteral (t : String) : Option Bytes :=
+  match pyInt t with
+  | some t0 => if t0.natAbs ≤ 0xFFFFFFFFFFFFFFFF ∧ t.toList.head? ≠ some '0' then some (intToScriptBytes t0) else none
+  | none => none
+
 /-- `ScriptTools.compile_expression(t)` for a non-empty token -/
 def compileExpression (t : String) : Except Err Bytes :=
-  let cs := t.toList
-  if cs.head? = some '[' ∧ cs.getLast? = some ']' then
-    match unhexlify (cs.drop 1).dropLast with
+  if t.toList.head? = some '[' ∧ t.toList.getLast? = some ']' then
+    match unhexlify (t.toList.drop 1).dropLast with
     | some b => .ok b
     | none => .error .valueError            -- binascii.Error is a ValueError
-  else if cs.head? = some '\'' ∧ cs.getLast? = some '\'' then
-    .ok (String.ofList (cs.drop 1).dropLast).toUTF8.toList
+  else if t.toList.head? = some '\'' ∧ t.toList.getLast? = some '\'' then
+    .ok (String.ofList (t.toList.drop 1).dropLast).toUTF8.toList
   else
-    let viaInt : Option Bytes :=
-      match pyInt t with
-      | some t0 => if t0.natAbs ≤ 0xFFFFFFFFFFFFFFFF ∧ cs.head? ≠ some '0' then some (intToScriptBytes t0) else none
-      | none => none
-    match viaInt with
+    match decimalLiteral t with
     | some b => .ok b
     | none =>
-      match unhexlify cs with
+      match unhexlify t.toList with
       | some b => .ok b
       | none => .error .syntaxError
 
@@ -251,6 +252,17 @@ def tokTexts (info : Info) : List Tok → Except Err (List String)
     let b ← tokTexts info ts
     pure (a ++ b)
 
+/-- `ContractAPI._SCRIPT_LOOKUP[type]` -/
+def shapeOf (typeName : String) : Option (List Tok) := (scriptLookup.find? (·.1 = typeName)).map (·.2)
+
+/-- the text branch of `for_info`: build the tokens, compile them -/
+def forInfoText (info : Info) : Except Err Bytes :=
+  match shapeOf info.typeName with
+  | none => .error .keyError
+  | some shape => do
+    let toks ← tokTexts info shape
+    compileTokens toks
+
 /-- `ContractAPI.for_info(info)` -/
 def forInfo (info : Info) : Except Err Bytes :=
   match info with
@@ -258,17 +270,13 @@ def forInfo (info : Info) : Except Err Bytes :=
     let r ← compileToken "OP_RETURN"
     pure (r ++ d)
   | .unknown s => .ok s
-  | _ =>
-    match (scriptLookup.find? (·.1 = info.typeName)).map (·.2) with
-    | none => .error .keyError
-    | some shape => do
-      let toks ← tokTexts info shape
-      compileTokens toks
+  | _ => forInfoText info
 
 inductive Slot | pubkey | pubkeyhash | segwit | data | synthetic
   deriving DecidableEq, Repr
 
-def asciiBytes (s : String) : Bytes := s.toUTF8.toList
+/-- bytes of an ASCII literal (`b"PUBKEY"`) -/
+def asciiBytes (s : String) : Bytes := s.toList.map (fun c => UInt8.ofNat c.toNat)
 
 /-- which placeholder the data of a template instruction is (`data2 == b"PUBKEY"` …) -/
 def slotOf (d2 : Option Bytes) : Option Slot :=
